@@ -37,22 +37,24 @@ SegCmd(s, prev, o) ==
                            ELSE G(L("Q"), <<R(s[3]), R(s[4])>>)
        [] Kind(s) = "A" -> G(L("A"), <<s[3], s[4], s[5], s[6], R(s[7])>>)
 (* the emission loop: curpos = <<>> means "no current position yet" *)
-RECURSIVE EmitFrom(_, _, _, _, _)
-EmitFrom(p, i, curpos, prev, o) ==
+RECURSIVE EmitFrom(_, _, _, _, _, _)
+EmitFrom(p, i, curpos, prev, o, restartAt) ==
   IF i > Len(p) THEN <<>>
   ELSE LET s == p[i]
+           \* a moveto is written at the very start, after a jump, and - as the code does - wherever a closed path written with Z passes through
+           \* its closing point again (restartAt = that point, <<>> = rule not active): a redundant but harmless moveto
            m == IF curpos = <<>> THEN <<G(IF o.rel THEN "m" ELSE "M", <<Start(s)>>)>>
-                ELSE IF curpos # Start(s)
+                ELSE IF curpos # Start(s) \/ Start(s) = restartAt
                      THEN <<G(IF o.rel THEN "m" ELSE "M", <<IF o.rel THEN Sub2(Start(s), curpos) ELSE Start(s)>>)>>
                      ELSE <<>>
-           \* after a moveto the parser has forgotten the previous curve: S/T must not rely on it
-           pv == IF m # <<>> /\ curpos # <<>> THEN prev ELSE prev
-       IN m \o <<SegCmd(s, pv, o)>> \o EmitFrom(p, i+1, End(s), s, o)
+           \* after a moveto the parser has forgotten the previous curve: S/T must not rely on it (the code did, until f8f7769)
+           pv == IF m # <<>> /\ Variant = "correct" THEN <<>> ELSE prev
+       IN m \o <<SegCmd(s, pv, o)>> \o EmitFrom(p, i+1, End(s), s, o, restartAt)
 Emit(p, o) ==
   LET closed == o.z /\ Closed(p)
       dropLast == closed /\ (Variant = "code" \/ (Kind(p[Len(p)]) = "L" /\ Len(p) > 1))
       body == IF dropLast THEN SubSeq(p, 1, Len(p)-1) ELSE p
-  IN EmitFrom(body, 1, <<>>, <<>>, o) \o (IF closed THEN <<G(IF o.rel THEN "z" ELSE "Z", <<>>)>> ELSE <<>>)
+  IN EmitFrom(body, 1, <<>>, <<>>, o, IF closed THEN End(p[Len(p)]) ELSE <<>>) \o (IF closed THEN <<G(IF o.rel THEN "z" ELSE "Z", <<>>)>> ELSE <<>>)
 OptSeq == << [st |-> FALSE, z |-> FALSE, rel |-> FALSE], [st |-> FALSE, z |-> FALSE, rel |-> TRUE],
              [st |-> FALSE, z |-> TRUE,  rel |-> FALSE], [st |-> FALSE, z |-> TRUE,  rel |-> TRUE],
              [st |-> TRUE,  z |-> FALSE, rel |-> FALSE], [st |-> TRUE,  z |-> FALSE, rel |-> TRUE],
@@ -96,4 +98,7 @@ CaseIsRel == \A o \in Opts : \A i \in 1..Len(Emit(path, o)) : IsAbs(Emit(path, o
 STOnlyIfAsked == \A o \in Opts : ~o.st => \A i \in 1..Len(Emit(path, o)) : Upper(Emit(path, o)[i].c) \notin {"S","T"}
 Dump == PrintT(ToJson([path |-> path, emit |-> [i \in 1..8 |-> Emit(path, OptSeq[i])]]))
 DumpFull == Len(path) = MaxSeg => Dump
+(* closed paths that pass through their closing point before the end (d() restarts the subpath there) *)
+Revisits == Len(path) >= 2 /\ Closed(path) /\ \E i \in 2..Len(path) : Start(path[i]) = End(path[Len(path)])
+DumpRevisit == (Len(path) = MaxSeg /\ Revisits) => Dump
 =============================================================================
